@@ -43,9 +43,13 @@ fn vp_native_framing_decision_matrix_body() {
                     // a Connection field that names the framing fields as hop-by-hop (or anything else) changes nothing about the framing
                     let conn = ["", "Connection: close\r\n", "Connection: content-length\r\n", "Connection: Transfer-Encoding, content-length\r\n", "Connection: keep-alive\r\nConnection: Content-Length\r\n"][(cases % 5) as usize];
                     let mut wire = format!("HTTP/1.1 {} X\r\n{}", status, conn).into_bytes();
-                    for v in cls { wire.extend_from_slice(format!("Content-Length: {}\r\n", v).as_bytes()); }
+                    // the framing fields under every spelling of their names the head parser takes for the same field: any letter
+                    // case, blanks between the name and the colon
+                    let cl_name = ["Content-Length", "content-length", "CONTENT-LENGTH", "Content-Length ", "content-length  "][((cases / 5) % 5) as usize];
+                    let te_name = ["Transfer-Encoding", "transfer-encoding", "Transfer-Encoding ", "TRANSFER-ENCODING"][((cases / 7) % 4) as usize];
+                    for v in cls { wire.extend_from_slice(format!("{}: {}\r\n", cl_name, v).as_bytes()); }
                     for (i, t) in te.iter().enumerate() {
-                        wire.extend_from_slice(format!("Transfer-Encoding: {}\r\n", t).as_bytes());
+                        wire.extend_from_slice(format!("{}: {}\r\n", te_name, t).as_bytes());
                         if i == 0 && te.len() > 1 { wire.extend_from_slice(b"X-Between: 1\r\n"); }
                     }
                     let joined = te.join(",");
@@ -56,7 +60,7 @@ fn vp_native_framing_decision_matrix_body() {
                     let res = parse_response(BaseStream::mock(wire.clone()), &req, req.url()).and_then(|r| r.bytes());
                     cases += 1; crate::verif_native_watchdog::progress();
                     let no_body = method == Method::HEAD || (100..200).contains(&status) || status == 204 || status == 304;
-                    let ctx = format!("method {} status {} CL {:?} TE {:?} {:?}", method, status, cls, te, conn.trim_end());
+                    let ctx = format!("method {} status {} {:?} {:?} {:?} {:?} {:?}", method, status, cl_name, cls, te_name, te, conn.trim_end());
                     // a control byte in a field value makes the head itself invalid: refusing the whole response is fine for any status
                     let ctl = cls.iter().any(|v| v.bytes().any(|b| (b < 0x20 && b != b'\t') || b == 0x7f));
                     if ctl && res.is_err() { continue; }
@@ -185,6 +189,23 @@ fn vp_native_head_hostile_inputs_no_panic_body() {
         let r = std::panic::catch_unwind(std::panic::AssertUnwindSafe(|| { let _ = parse_response(BaseStream::mock(w), &req, req.url()).and_then(|r| r.bytes()); }));
         assert!(r.is_ok(), "the client panicked on a chunk of declared size {:?}", size);
         cases += 1; crate::verif_native_watchdog::progress();
+    }
+    // bodies that are not text: every sequence of up to 4 symbols over lead bytes, continuation bytes, an ASCII letter and bytes
+    // that are never valid, after a short valid prefix, through every helper that turns a body into text or a string
+    {
+        let alphabet: [u8; 10] = [b'a', 0xC3, 0xA9, 0xE2, 0x82, 0xF0, 0x9F, 0x80, 0xFF, 0xED];
+        for len in 0..=4usize { for code in 0..alphabet.len().pow(len as u32) { for prefix in [&b""[..], "ok \u{e9} ".as_bytes()] {
+            let mut body = prefix.to_vec(); body.extend((0..len).map(|i| alphabet[(code / alphabet.len().pow(i as u32)) % alphabet.len()]));
+            for helper in 0..4 {
+                let mut w = format!("HTTP/1.1 200 OK\r\nContent-Length: {}\r\n\r\n", body.len()).into_bytes(); w.extend_from_slice(&body);
+                let req = PreparedRequest::new(Method::GET, "http://a.test/");
+                let r = std::panic::catch_unwind(std::panic::AssertUnwindSafe(|| { if let Ok(resp) = parse_response(BaseStream::mock(w), &req, req.url()) {
+                    match helper { 0 => { let _ = resp.text_utf8(); } 1 => { let _ = resp.text(); } 2 => { let mut s = String::new(); let mut resp = resp; let _ = std::io::Read::read_to_string(&mut resp, &mut s); } _ => { let _ = resp.split().2.text_utf8(); } }
+                } }));
+                assert!(r.is_ok(), "the client panicked turning the body {:02x?} into text (helper {})", body, helper);
+                cases += 1; crate::verif_native_watchdog::progress();
+            }
+        } } }
     }
     println!("VP-NATIVE head_hostile_inputs_no_panic cases={}", cases);
 }
